@@ -671,6 +671,7 @@ def check(ctx):
     _derived_pspace(rep, model)
     _derived_tensor(rep, model)
     _getitem_weights(rep, model)
+    _pspace_elem_getitem(rep, model)
     # ---- R7 derived spaces ----------------------------------------------------
     _derived(ctx, rep, model, eqs)
     return rep
@@ -1282,6 +1283,86 @@ def _getitem_weights(rep, model):
             rep.violation('R7e', cons, 'raises %s' % e.name, NPYT,
                           fn.lineno)
     rep.floor('R7e', 'element selections', n, 9)
+
+
+def _pspace_elem_getitem(rep, model):
+    """R7f: `ProductSpaceElement.__getitem__` with tuple indices evaluated on
+    a power-space element with symbolic entries: the selected entries are
+    those NumPy's indexing selects from the stacked array (an integer in the
+    last place keeps an axis of size one, as documented), for positive and
+    negative integers, slices and lists."""
+    import numpy as _np
+    from ..spacemodel import (SMInterp, SMHooks, NSpace, NPSpace, NElem,
+                              NPElem, sym_elem, flat)
+    from ..namodel import NA
+    from ..symex import ClassV, Func, PyRaise, is_scalar, to_rat
+    PSP = 'odl/space/pspace.py'
+    ci = model.get('ProductSpaceElement')
+    if ci is None or '__getitem__' not in ci.methods:
+        raise AnalysisError('anchor vanished: ProductSpaceElement.'
+                            '__getitem__')
+    fn = ci.methods['__getitem__']
+
+    class H(SMHooks):
+        def on_call(self, interp, f, args, kwargs, node):
+            if isinstance(f, ClassV) and f.ci.name == 'ProductSpace':
+                return NPSpace(list(args), None)
+            return SMHooks.on_call(self, interp, f, args, kwargs, node)
+
+        def on_binop(self, interp, op, l, r):
+            if isinstance(l, slice) or isinstance(r, slice) or (
+                    isinstance(l, list) and is_scalar(r)) or (
+                        isinstance(r, list) and is_scalar(l)):
+                raise PyRaise('TypeError')     # Python's own rule
+            return SMHooks.on_binop(self, interp, op, l, r)
+
+        def on_subscript(self, interp, obj, idx):
+            r = SMHooks.on_subscript(self, interp, obj, idx)
+            if isinstance(obj, NElem) and isinstance(r, NA):
+                # NumpyTensor.__getitem__: an array-valued selection is an
+                # element of the space with the selected shape (C20-R7e)
+                return NElem(NSpace(r.a.shape, obj.space.dt, None), r)
+            return r
+    n = 0
+    cases = [(slice(None), 1), (slice(None), -1), (slice(None), -3),
+             (slice(None), slice(1, 3)), (slice(None), slice(None, None, 2)),
+             (slice(0, 1), 2), ([1, 0], 0), ([1, 0], -2),
+             (slice(None), [0, 2]), (1, -1), (0, slice(0, 2))]
+    for idx in cases:
+        n += 1
+        cons = 'ProductSpaceElement.__getitem__[%s]' % (idx,)
+        try:
+            I = SMInterp(model, {}, H())
+            X = NSpace((3,), 'float64', None)
+            P = NPSpace([X, X], None)
+            x = sym_elem(P, 'x')
+            stacked = _np.array([list(flat(p)) for p in x.parts],
+                                dtype=object)
+            want = stacked[tuple(idx)]
+            want = [want] if not isinstance(want, _np.ndarray) else list(
+                want.ravel())
+            r = I.call_func(Func(fn, I.env_of(PSP), ci), [idx], {}, x)
+            if isinstance(r, NPElem):
+                got = [v for p in r.parts for v in flat(p)]
+            elif isinstance(r, NElem):
+                got = list(flat(r))
+            elif is_scalar(r):
+                got = [to_rat(r)]
+            else:
+                raise Undecided('result %r' % (r,))
+            if len(got) != len(want) or any(
+                    not (to_rat(g) - to_rat(w)).is_zero()
+                    for g, w in zip(got, want)):
+                rep.violation('R7f', cons, 'selects %r, the stacked array '
+                              'indexed the same way gives %r' % (got, want),
+                              PSP, fn.lineno)
+            else:
+                rep.holds('R7f', cons, 'the entries NumPy indexing selects')
+        except Undecided as e:
+            rep.undecided('R7f', cons, str(e), PSP, fn.lineno)
+        except PyRaise as e:
+            rep.violation('R7f', cons, 'raises %s' % e.name, PSP, fn.lineno)
+    rep.floor('R7f', 'product-space element selections', n, 10)
 
 
 def _derived_pspace(rep, model):
